@@ -76,3 +76,11 @@ class Viol:
         self.sub.violations.append({"sub": self.sub.name, "case": case, "w": weight,
                                     "expected": expected, "actual": actual,
                                     "detail": detail})
+
+
+TAIL0 = 910675     # first day of the last 606 days of the range (4094-05-05)
+
+
+def tail(tag, n):
+    """qualify a class tag with the region of the day axis the case lies in"""
+    return tag + "@tail" if n is not None and n >= TAIL0 else tag
